@@ -10,6 +10,8 @@ DT = {"f": np.float64, "i": np.int64, "b": bool, "O": object}
 
 
 def rhs_values(n, kind, flavour=None):
+    if kind == "f" and flavour == "f32":
+        return (np.arange(n, dtype=np.float32) + np.float32(7000.5))
     if kind == "f" and flavour == "whole":
         return (np.arange(n, dtype=float) + 7000.0)              # floats that happen to be integral
     if kind == "f" and flavour == "huge":
@@ -112,7 +114,11 @@ class C03(Prop):
         c["inplace"] = rng.random() < 0.6
         c["rhs"] = rng.choice(["scalar", "scalar", "zerod", "array", "array", "array_bcast"])
         if c["cast"] and c["rkind"] == "f":
-            c["rflavour"] = rng.choice(["frac", "frac", "whole", "huge"])
+            c["rflavour"] = rng.choice(["frac", "frac", "whole", "huge", "f32"] + (["f32", "f32"] if akind == "i" else []))
+            if c["rflavour"] == "f32" and akind == "i":
+                # integers beyond single precision, a single-precision right-hand side: the cells that are NOT addressed
+                # must come through the widening unchanged
+                c["array"]["vbase"] = 2 ** 24 + 1
         return c
 
     def gen_boolnd(self, rng):
@@ -151,7 +157,8 @@ class C03(Prop):
         if c["rhs"] in ("scalar", "zerod") or c.get("boolnd") is not None:
             v = rhs_values(1, kind, c.get("rflavour"))[0]
             if kind != "O":
-                v = v.item() if c["rhs"] == "scalar" else np.array(v)
+                # (a single-precision scalar stays a NumPy scalar: .item() would make it a Python float)
+                v = (v if c.get("rflavour") == "f32" else v.item()) if c["rhs"] == "scalar" else np.array(v)
             return v, None
         shp = self.selection_shape(c)
         if shp and any(s == 0 for s in shp):
